@@ -57,11 +57,17 @@ func ruleT2(c *Ctx, id string) {
 	}
 	// GetInodeLocked records the inode on every path
 	if V.GetInodeLocked != nil {
-		add := c.fn(id, "fstxn.(*FsTxn).addInode")
-		if add != nil {
-			entry := V.GetInodeLocked.Blocks[0].Instrs[0]
-			R.Check(MustAfter(V.GetInodeLocked, callTo(add), nil)(entry), id, "fstxn.GetInodeLocked|records the locked inode", P.Pos(V.GetInodeLocked.Pos()), "every path records the locked inode in op.inodes", "must-follow", "a locked inode is not recorded: releaseInodes will never unlock it")
+		isRec := func(in ssa.Instruction) bool {
+			mu, ok := in.(*ssa.MapUpdate)
+			if !ok {
+				return false
+			}
+			n, fl, _, _ := loadedField(mu.Map)
+			return n == V.FsTxn && fl == "inodes"
 		}
+		entry := V.GetInodeLocked.Blocks[0].Instrs[0]
+		rec := P.NewAlways(isRec)
+		R.Check(MustAfter(V.GetInodeLocked, rec.Instr, nil)(entry), id, "fstxn.GetInodeLocked|records the locked inode", P.Pos(V.GetInodeLocked.Pos()), "every path stores the locked inode into op.inodes", "must-follow", "a locked inode is not recorded: releaseInodes will never unlock it")
 	}
 	// releaseInodes releases every recorded inode
 	if V.releaseInodes != nil {
@@ -72,7 +78,6 @@ func ruleT2(c *Ctx, id string) {
 	// ReleaseInode forgets the inode and releases the same number
 	if V.ReleaseInode != nil {
 		f := V.ReleaseInode
-		done := c.fn(id, "fstxn.(*FsTxn).doneInode")
 		entry := f.Blocks[0].Instrs[0]
 		okRel := false
 		for _, call := range P.CallsIn(f, funcIs(V.LockRelease)) {
@@ -82,9 +87,19 @@ func ruleT2(c *Ctx, id string) {
 			}
 		}
 		R.Check(okRel, id, "fstxn.ReleaseInode|releases its own inode's number", P.Pos(f.Pos()), "Lockmap.Release(ip.Inum) on every path", "same inode", "ReleaseInode unlocks a different number or not at all")
-		if done != nil {
-			R.Check(MustAfter(f, callTo(done), nil)(entry), id, "fstxn.ReleaseInode|forgets the inode", P.Pos(f.Pos()), "the inode is removed from op.inodes (no double release at the epilogue)", "must-follow", "a released inode stays recorded: the epilogue releases a lock it no longer holds")
+		isDel := func(in ssa.Instruction) bool {
+			cc := callCommon(in)
+			if cc == nil {
+				return false
+			}
+			bi, ok := cc.Value.(*ssa.Builtin)
+			if !ok || bi.Name() != "delete" {
+				return false
+			}
+			n, fl, _, _ := loadedField(cc.Args[0])
+			return n == V.FsTxn && fl == "inodes"
 		}
+		R.Check(MustAfter(f, P.NewAlways(isDel).Instr, nil)(entry), id, "fstxn.ReleaseInode|forgets the inode", P.Pos(f.Pos()), "the inode is removed from op.inodes (no double release at the epilogue)", "must-follow", "a released inode stays recorded: the epilogue releases a lock it no longer holds")
 	}
 	// early release in GetInodeInum only on the FREE branch
 	if V.GetInodeInum != nil {
